@@ -133,6 +133,22 @@ type caseOutcome struct {
 func runCase(p *Pair, env *Env, c Case) caseOutcome {
 	out := caseOutcome{c: c}
 	for _, op := range c.Ops {
+		if op.Name == "cli.formatAll" && len(op.Args) > 2 && string(op.Args[1]) == "LINT" {
+			// the verdict of the upper-case lint is an input of the model, computed with the real code
+			t := Tree{}
+			for i := 2; i+1 < len(op.Args); i += 2 {
+				t[string(op.Args[i])] = op.Args[i+1]
+			}
+			args := append([][]byte{}, op.Args...)
+			args[1] = lintPathsOf(p, env, t)
+			op = Op{op.Name, args}
+		}
+		switch op.Name {
+		case "cli.generate", "cli.update":
+			prewarmJoins(p, env, op.Args[0:6], op.Args[7:])
+		case "cli.updateAll":
+			prewarmJoins(p, env, op.Args[0:6], op.Args[6:])
+		}
 		ri := p.Impl(op, env.timeout)
 		rm := p.Model(op, env.timeout)
 		if ri.Status == "harness-error" || rm.Status == "harness-error" || ri.Status == "bad-op" || rm.Status == "bad-op" || rm.Status == "bad-hex" {
